@@ -50,7 +50,9 @@ Definition no_reparse : bytes -> option json := fun _ => None.
 
 (* ------------------------------------------------------------------ accept_iff_coercible: refuted, once per cause *)
 (* The full statement  forall S reparse vds vars, accepts go_quirks S reparse vds vars = true <->
-   coercible_all std S vds vars = true  is false of the faithful model. *)
+   coercible_all std S vds vars = true  is false of the faithful model.  The witnesses of the causes that
+   have been repaired in /repo since are statements about [old_quirks], the code as it was; under
+   [go_quirks] the same inputs are handled as the specification says (Examples [fixed_*] below). *)
 
 (* input In { k: Int }   query($x: In)   {"x":{"k":1.5}} *)
 Lemma refuted_int_proof :
@@ -84,7 +86,7 @@ Proof.
 Qed.
 (* input In { r: Int! = 3 }   query($x: In)   {"x":{"r":null}} *)
 Lemma refuted_field_null_default_proof :
-  exists S vds vars, accepts go_quirks S no_reparse vds vars = true /\ coercible_all std S vds vars = false.
+  exists S vds vars, accepts old_quirks S no_reparse vds vars = true /\ coercible_all std S vds vars = false.
 Proof.
   exists (mk_schema [mk_input b_In [mk_field b_r (TNonNull (TNamed n_Int)) (Some (VInt t_3))]]),
          [mk_var b_x (TNamed b_In) None],
@@ -93,7 +95,7 @@ Proof.
 Qed.
 (* input In { ids: [Int!] = [1] }   query($x: In)   {"x":{"ids":[null]}} *)
 Lemma refuted_element_null_default_proof :
-  exists S vds vars, accepts go_quirks S no_reparse vds vars = true /\ coercible_all std S vds vars = false.
+  exists S vds vars, accepts old_quirks S no_reparse vds vars = true /\ coercible_all std S vds vars = false.
 Proof.
   exists (mk_schema [mk_input b_In [mk_field b_ids (TList (TNonNull (TNamed n_Int))) (Some (VList [VInt t_1]))]]),
          [mk_var b_x (TNamed b_In) None],
@@ -104,7 +106,7 @@ Qed.
    second element with its default injected, and the validator never sees it *)
 Lemma refuted_inject_drift_proof :
   exists S vds vars,
-    pipeline go_quirks S no_reparse vds vars
+    pipeline old_quirks S no_reparse vds vars
     = PDone (JObj [(b_x, JArr [JObj [(b_k, num t_1)]; JObj []])]) None
     /\ coercible_all std S vds vars = false.
 Proof.
@@ -116,7 +118,7 @@ Qed.
 (* enum E0 { A }  enum E { A B }  input In { k: Int = 1 }   query($x: [E])   {"x":[{}]}
    -- the enum's ref 1 indexes the (single) input object definition: index out of range *)
 Lemma refuted_inject_enum_ref_proof :
-  exists S vds vars, pipeline go_quirks S no_reparse vds vars = PPanic /\ coercible_all std S vds vars = false.
+  exists S vds vars, pipeline old_quirks S no_reparse vds vars = PPanic /\ coercible_all std S vds vars = false.
 Proof.
   exists (mk_schema [mk_enum b_E0 [b_A]; mk_enum b_E [b_A; b_B]; mk_input b_In [mk_field b_k (TNamed n_Int) (Some (VInt t_1))]]),
          [mk_var b_x (TList (TNamed b_E)) None],
@@ -127,7 +129,7 @@ Qed.
 Lemma refuted_inject_reparse_proof :
   exists S reparse vds vars,
     reparse b_braces = Some (JObj [])
-    /\ pipeline go_quirks S reparse vds vars = PDone (JObj [(b_x, JObj [(b_d, num t_1)])]) None
+    /\ pipeline old_quirks S reparse vds vars = PDone (JObj [(b_x, JObj [(b_d, num t_1)])]) None
     /\ coercible_all std S vds vars = false.
 Proof.
   exists (mk_schema [mk_input b_In [mk_field b_d (TNamed n_Int) (Some (VInt t_1))]]),
@@ -154,60 +156,69 @@ Proof.
   vm_compute. auto.
 Qed.
 
+(* ---- the repaired causes: the same inputs under the code as it is now ---- *)
+Example fixed_field_null_default :
+  accepts go_quirks (mk_schema [mk_input b_In [mk_field b_r (TNonNull (TNamed n_Int)) (Some (VInt t_3))]]) no_reparse
+          [mk_var b_x (TNamed b_In) None] (JObj [(b_x, JObj [(b_r, JNull)])]) = false.
+Proof. vm_compute. reflexivity. Qed.
+Example fixed_element_null_default :
+  accepts go_quirks (mk_schema [mk_input b_In [mk_field b_ids (TList (TNonNull (TNamed n_Int))) (Some (VList [VInt t_1]))]]) no_reparse
+          [mk_var b_x (TNamed b_In) None] (JObj [(b_x, JObj [(b_ids, JArr [JNull])])]) = false.
+Proof. vm_compute. reflexivity. Qed.
+Example fixed_inject_drift :
+  exists e, pipeline go_quirks (mk_schema [mk_input b_In [mk_field b_k (TNamed n_Int) (Some (VInt t_1))]]) no_reparse
+                     [mk_var b_x (TList (TNonNull (TNamed b_In))) None] (JObj [(b_x, JArr [JNull; JObj []])])
+            = PDone (JObj [(b_x, JArr [JNull; JObj [(b_k, num t_1)]])]) (Some e).
+Proof. eexists. vm_compute. reflexivity. Qed.
+Example fixed_inject_enum_ref :
+  exists e, pipeline go_quirks (mk_schema [mk_enum b_E0 [b_A]; mk_enum b_E [b_A; b_B]; mk_input b_In [mk_field b_k (TNamed n_Int) (Some (VInt t_1))]])
+                     no_reparse [mk_var b_x (TList (TNamed b_E)) None] (JObj [(b_x, JArr [JObj []])])
+            = PDone (JObj [(b_x, JArr [JObj []])]) (Some e).
+Proof. eexists. vm_compute. reflexivity. Qed.
+Example fixed_inject_reparse :
+  exists e, pipeline go_quirks (mk_schema [mk_input b_In [mk_field b_d (TNamed n_Int) (Some (VInt t_1))]])
+                     (fun s => if bytes_eqb s b_braces then Some (JObj []) else None)
+                     [mk_var b_x (TNamed b_In) None] (JObj [(b_x, JStr b_braces)])
+            = PDone (JObj [(b_x, JStr b_braces)]) (Some e).
+Proof. eexists. vm_compute. reflexivity. Qed.
+
 (* ------------------------------------------------------------------ accept_iff_coercible: what is true *)
-(* the code as it is: Int / ID weakened to "JSON number" ([weak]), every other cause excluded by an explicit
-   boolean condition on the schema / operation / variables *)
+(* the code as it is: Int / ID weakened to "JSON number" ([weak]); what is left of the other causes (Upload) is
+   excluded by an explicit boolean condition; the rest is well-formedness of the schema / operation / JSON *)
 Theorem accept_iff_coercible_partial_proof : forall S reparse vds ms,
     fields_nodup S = true ->                  (* schema validity: field names of an input object differ *)
     oneof_no_defaults S = true ->             (* schema validity: OneOf input objects have no defaults *)
-    field_defaults_ok weak_strict S = true -> (* schema validity: defaults are valid, well-shaped values of their field's type *)
+    field_defaults_ok weak_strict S = true -> (* schema validity: input field defaults are valid for their type *)
     json_nodup (JObj ms) = true ->            (* no duplicate keys in the variables JSON *)
     vars_nodup vds = true ->                  (* variable names differ *)
     no_upload_ref S vds = true ->             (* excludes upload-exempt-from-non-null and remap-name-collision-upload *)
-    defaults_nullable_only S = true ->        (* excludes field-null- / list-element-null-uses-field-default *)
     forallb (var_default_ok go_quirks S weak_strict) vds = true ->
-                                              (* variable defaults, as extracted, are valid for their type *)
-    forallb (var_shaped S ms) vds = true ->   (* after list coercion: arrays at list types, objects at input object types, no null
-                                                 among the elements of lists of lists / of input objects, no string there:
-                                                 excludes the three inject-defaults-* causes *)
+                                              (* operation validity: variable defaults are valid for their type *)
     normalise go_quirks S reparse vds ms <> NFuel ->   (* the model's recursion budget for nested defaults suffices *)
     (accepts go_quirks S reparse vds (JObj ms) = true <-> coercible_all weak S vds (JObj ms) = true).
 Proof.
-  intros. apply (pipeline_shaped_iff_coercible S reparse); auto.
+  intros. apply (pipeline_full_iff_coercible S reparse go_quirks); auto.
 Qed.
 
-(* the same with "default injection changes nothing" in place of the shape condition (covers unshaped values,
-   e.g. a null among the elements of a list of input objects, when there is nothing to inject) *)
-Theorem accept_iff_coercible_partial_inert_proof : forall S reparse vds ms,
-    fields_nodup S = true ->
-    json_nodup (JObj ms) = true ->
-    vars_nodup vds = true ->
-    no_upload_ref S vds = true ->
-    defaults_nullable_only S = true ->
-    forallb (var_default_ok go_quirks S weak_strict) vds = true ->
-    inject_inert go_quirks S reparse vds ms ->
-    (accepts go_quirks S reparse vds (JObj ms) = true <-> coercible_all weak S vds (JObj ms) = true).
-Proof.
-  intros. apply (pipeline_iff_coercible go_quirks S reparse vds ms); auto.
-Qed.
-
-(* the code with every cause repaired ([no_quirks]): the full specification, no weakening *)
+(* the code with every remaining cause repaired as well ([no_quirks]): the full specification, no weakening *)
 Theorem accept_iff_coercible_repaired_proof : forall S reparse vds ms,
     fields_nodup S = true ->
+    oneof_no_defaults S = true ->
+    field_defaults_ok std_strict S = true ->
     json_nodup (JObj ms) = true ->
     vars_nodup vds = true ->
-    no_upload_ref S vds = true ->
+    no_upload_ref S vds = true ->             (* only for the variables mapper: Upload variables are not renamed *)
     forallb (var_default_ok no_quirks S std_strict) vds = true ->
-    inject_inert no_quirks S reparse vds ms ->
+    normalise no_quirks S reparse vds ms <> NFuel ->
     (accepts no_quirks S reparse vds (JObj ms) = true <-> coercible_all std S vds (JObj ms) = true).
 Proof.
-  intros. apply (pipeline_iff_coercible no_quirks S reparse vds ms); auto.
+  intros. apply (pipeline_full_iff_coercible S reparse no_quirks); auto.
 Qed.
 
 (* the bare validator (whatever normalisation did before) *)
 Theorem validator_accept_iff_partial_proof : forall S vds vars,
     fields_nodup S = true -> json_nodup vars = true ->
-    no_upload_ref S vds = true -> defaults_nullable_only S = true ->
+    no_upload_ref S vds = true ->
     (validate go_quirks S vds vars = None <-> coercible_all weak_strict S (map strip_default vds) vars = true).
 Proof. intros. apply (validate_iff_coercible go_quirks); auto. Qed.
 
@@ -243,9 +254,9 @@ Definition ex2_ms : list (bytes * json) :=
 Example accept_iff_coercible_partial_shaped_hyps :
   fields_nodup ex2_schema = true /\ oneof_no_defaults ex2_schema = true /\ field_defaults_ok weak_strict ex2_schema = true
   /\ json_nodup (JObj ex2_ms) = true /\ vars_nodup ex_vars = true
-  /\ no_upload_ref ex2_schema ex_vars = true /\ defaults_nullable_only ex2_schema = true
+  /\ no_upload_ref ex2_schema ex_vars = true
   /\ forallb (var_default_ok go_quirks ex2_schema weak_strict) ex_vars = true
-  /\ forallb (var_shaped ex2_schema ex2_ms) ex_vars = true
+  /\ field_defaults_ok std_strict ex2_schema = true /\ forallb (var_default_ok no_quirks ex2_schema std_strict) ex_vars = true
   /\ pipeline go_quirks ex2_schema no_reparse ex_vars (JObj ex2_ms)
      = PDone (JObj [(b_y, num [55]);
                     (b_x, JArr [JObj [(b_k, num [50]);
@@ -259,15 +270,21 @@ Example accept_iff_coercible_partial_shaped_fuel : normalise go_quirks ex2_schem
 Proof. vm_compute. discriminate. Qed.
 
 Example accept_iff_coercible_partial_hyps :
-  fields_nodup ex_schema = true /\ json_nodup (JObj ex_ms) = true /\ vars_nodup ex_vars = true
-  /\ no_upload_ref ex_schema ex_vars = true /\ defaults_nullable_only ex_schema = true
+  fields_nodup ex_schema = true /\ oneof_no_defaults ex_schema = true /\ field_defaults_ok weak_strict ex_schema = true
+  /\ json_nodup (JObj ex_ms) = true /\ vars_nodup ex_vars = true /\ no_upload_ref ex_schema ex_vars = true
   /\ forallb (var_default_ok go_quirks ex_schema weak_strict) ex_vars = true
-  /\ inject_inert go_quirks ex_schema no_reparse ex_vars ex_ms
-  /\ forallb (var_default_ok no_quirks ex_schema std_strict) ex_vars = true
-  /\ inject_inert no_quirks ex_schema no_reparse ex_vars ex_ms
   /\ accepts go_quirks ex_schema no_reparse ex_vars (JObj ex_ms) = true
   /\ jdepth (JObj ex_ms) = 3%nat.
-Proof. unfold inject_inert. vm_compute. repeat split; reflexivity. Qed.
+Proof. vm_compute. repeat split; reflexivity. Qed.
+(* the shapes the condition [var_shaped] of an earlier version excluded are covered now: a null and a number among
+   the elements of a list of input objects -- rejected, as the specification says, with the elements in place *)
+Example accept_iff_coercible_partial_unshaped :
+  exists e, pipeline go_quirks ex2_schema no_reparse [mk_var b_x (TList (TNonNull (TNamed b_In))) None]
+                     (JObj [(b_x, JArr [JNull; num [53]; JObj [(b_k, num [50])]])])
+            = PDone (JObj [(b_x, JArr [JNull; num [53]; JObj [(b_k, num [50]); (b_d, num t_1); (b_b, JObj [(b_k, num [53]); (b_d, num t_1)])]])]) (Some e)
+  /\ normalise go_quirks ex2_schema no_reparse [mk_var b_x (TList (TNonNull (TNamed b_In))) None]
+                  [(b_x, JArr [JNull; num [53]; JObj [(b_k, num [50])]])] <> NFuel.
+Proof. eexists. split; [vm_compute; reflexivity|vm_compute; discriminate]. Qed.
 
 (* ------------------------------------------------------------------ list coercion, unconditionally *)
 Theorem list_coercion_correct_proof : forall S j t,
@@ -306,11 +323,11 @@ Qed.
    one that does not coerce *)
 Theorem first_offender_single_variable_proof : forall S vd vars e,
     fields_nodup S = true -> json_nodup vars = true ->
-    no_upload_ref S [vd] = true -> defaults_nullable_only S = true ->
+    no_upload_ref S [vd] = true ->
     validate go_quirks S [vd] vars = Some e ->
     e_var e = vd_name vd /\ coercible_var weak_strict S vars (strip_default vd) = false.
 Proof.
-  intros S vd vars e Hf Hn HU HD H.
+  intros S vd vars e Hf Hn HU H.
   destruct (validate_error_offending go_quirks S [vd] vars e Hf H) as [vd' [p [Hin [Hv _]]]].
   destruct Hin as [->|[]]. split; auto.
   destruct (coercible_var weak_strict S vars (strip_default vd')) eqn:E; auto.
